@@ -147,7 +147,7 @@ theorem signLoop_succ (priv e : Bytes) (fuel : Nat) (sc : Script) :
           | .err => .err
           | .panic => .panic
         | _ => .panic := by
-  rw [signLoop]
+  rw [signLoop]; rfl
 
 /-- the out-of-range test of the code (`ConstantTimeCmp(K, nBytes, 32) >= 0`, then the zero
     accumulator) is the standard's `k ∉ [1, n-1]` -/
@@ -221,10 +221,9 @@ theorem signLoop_step (F : CurveFacts X) (priv e : Bytes)
     obtain ⟨x1, y1, hxy⟩ := smul_G_some hk0 hkn
     rw [hP, hxy]
     rw [hxy] at hrep
+    have hx : Point.getAffineXUnsafe X.C P = x1 := by rw [F.affineX P _ hrep]; rfl
     simp only []
-    rw [F.affineX P _ hrep, F.n_eq]
-    simp only [affX]
-    rw [Nat.add_comm x1 (Bytes.toNatBE e)]
+    rw [hx, F.n_eq, Nat.add_comm x1 (Bytes.toNatBE e)]
     by_cases hr0 : (Bytes.toNatBE e + x1) % Spec.SM2.n = 0
     · rw [if_pos hr0, if_pos (Or.inl hr0)]
     · rw [if_neg hr0]
@@ -244,6 +243,48 @@ theorem signLoop_step (F : CurveFacts X) (priv e : Bytes)
         · rw [if_pos hs0, if_pos hs0]
         · rw [if_neg hs0, if_neg hs0, ensure32_eq _ hrlt,
             ensure32_eq _ (Nat.lt_trans (Nat.mod_lt _ n_pos) n_lt_pow)]
+
+/-- the standard's rejection rules, one by one: with r = (e + x1) mod n for [k]G = (x1, y1) and
+    s = (1+d)⁻¹·(k − r·d) mod n, a candidate k is skipped exactly when k ∉ [1, n-1], r = 0, r + k = n or s = 0 -/
+theorem signWith_none_iff (d e k : Nat) :
+    Spec.SM2.signWith d e k = none ↔
+      (k = 0 ∨ k ≥ Spec.SM2.n) ∨
+      ∃ x1 y1, Spec.SM2.smul k Spec.SM2.G = some (x1, y1) ∧
+        ((e + x1) % Spec.SM2.n = 0 ∨ (e + x1) % Spec.SM2.n + k = Spec.SM2.n ∨
+          Spec.SM2.invMod (1 + d) Spec.SM2.n *
+            ((k + (Spec.SM2.n - (e + x1) % Spec.SM2.n * d % Spec.SM2.n)) % Spec.SM2.n) % Spec.SM2.n = 0) := by
+  unfold Spec.SM2.signWith
+  by_cases hr : k = 0 ∨ k ≥ Spec.SM2.n
+  · rw [if_pos hr]; exact ⟨fun _ => Or.inl hr, fun _ => rfl⟩
+  · rw [if_neg hr]
+    obtain ⟨x1, y1, hxy⟩ := smul_G_some (fun h => hr (Or.inl h))
+      (by rcases Nat.lt_or_ge k Spec.SM2.n with h | h; exact h; exact absurd (Or.inr h) hr)
+    rw [hxy]
+    simp only []
+    constructor
+    · intro h
+      right
+      refine ⟨x1, y1, rfl, ?_⟩
+      by_cases h1 : (e + x1) % Spec.SM2.n = 0 ∨ (e + x1) % Spec.SM2.n + k = Spec.SM2.n
+      · rcases h1 with h1 | h1
+        · exact Or.inl h1
+        · exact Or.inr (Or.inl h1)
+      · rw [if_neg h1] at h
+        by_cases h2 : Spec.SM2.invMod (1 + d) Spec.SM2.n *
+            ((k + (Spec.SM2.n - (e + x1) % Spec.SM2.n * d % Spec.SM2.n)) % Spec.SM2.n) % Spec.SM2.n = 0
+        · exact Or.inr (Or.inr h2)
+        · rw [if_neg h2] at h; cases h
+    · rintro (h | ⟨x1', y1', hq, h⟩)
+      · exact absurd h hr
+      · injection hq with hq
+        injection hq with hx _
+        subst hx
+        rcases h with h | h | h
+        · rw [if_pos (Or.inl h)]
+        · rw [if_pos (Or.inr h)]
+        · by_cases h1 : (e + x1) % Spec.SM2.n = 0 ∨ (e + x1) % Spec.SM2.n + k = Spec.SM2.n
+          · rw [if_pos h1]
+          · rw [if_neg h1, if_pos h]
 
 /-! ### the loop -/
 
